@@ -40,10 +40,12 @@ The model now mirrors the REPAIRED code; comments at each definition name the co
     `* | json | fields except`, `* | json | count_distinct x`, `* | parse`.    fixed aca43de
  C. `tag("asc")`/`tag("desc")` before the long spellings: `sort by x descending | limit 1` lost
     the limit.                                                                 fixed 96a22d2
-    Still open (known_findings.json): keywords are prefix tags without a word boundary
-    (`countby x`, `parse "*" asx`, `fields onlyx` accepted; `minutes as m`, `p50 + 1 as y`,
-    `maximum as z`, `trueish`/`nullable` inside expressions rejected or misread).
+    Keywords were prefix tags without a word boundary (`countby x`, `parse "*" asx`,
+    `fields onlyx` accepted; `minutes as m`, `maximum as z`, `p50x as y`, `trueish`/`nullable`
+    inside expressions rejected or misread).                                   fixed 0324001 (`kw`)
  D. AND / OR took exactly two operands: `a AND b AND c` searched for the word "AND".  fixed f43daf2
+    A `*`-only / empty keyword under OR or NOT was dropped (`a OR *` = `a`, `NOT *` = `*`; found by
+    the C02 check).                                                            fixed 0ef6700
  E. `c as u8` in is_ident/starts_ident/is_keyword: `š1 as x` accepted (U+0161 ≡ 'a').  fixed 1e96979
  F. Panics: char indices used as byte offsets and a byte-wise skip loop (`(a é`, `* | where é|`,
     `* | json | count(é)`, `* | parse é x`) fixed 8ce3d1f; chrono duration constructors / Add
@@ -55,8 +57,9 @@ The model now mirrors the REPAIRED code; comments at each definition name the co
  Open: the header of a `by` key is its source text (`sourcedExpr`), so spelling changes the output
  column; `p99(x), percentile099(y)` both become column "p99".
 
-Quirks that remain and are mirrored here: `value` tags `true`/`false`/`null` and `digit1` are prefix
-matches; no negative or fractional number literals in expressions (`x == -5`, `x > 1.5` rejected);
+Quirks that remain and are mirrored here: `digit1` numbers and duration units are prefix matches
+(`5x` = 5 then `x`); a column named exactly like an aggregate (`max + 1 as y`, `p50 + 1 as y`) is
+the aggregate; no negative or fractional number literals in expressions (`x == -5`, `x > 1.5` rejected);
 `limit inf` / `limit nan` are accepted by the parser (the type checker rejects them); `limit 1e` is
 a nom `Failure` (rejected without any diagnostic).
 
@@ -344,6 +347,10 @@ def isKeywordCh (c : Char) : Bool :=
   c == '-' || c == '_' || c == ':' || c == '/' || c == '.' || c == '+' || c == '@' || c == '#' ||
   c == '$' || c == '%' || c == '^' || c == '*' || isAlnum8 c.toNat
 
+/-- `kw(word)`: the tag NOT directly followed by an identifier character (repo commit 0324001;
+before it keywords were plain prefix tags: `countby x` = `count by x`, `trueish` = `true` + `ish`) -/
+def kw (s : String) : P Unit := tag s <* notP (satisfy isIdentCh)
+
 /-! ### quoted strings -/
 
 /-- `escaped(none_of("\\" ++ q), '\\', escaped_chars)` : `none` = Err (leading quote char handled by
@@ -473,9 +480,9 @@ def valueP : P Value :=
   altL [pmap Value.str quotedString,
         pmap Value.dur duration,
         pmap (fun d => Value.fromString (String.ofList d)) digit1,
-        pmap (fun _ => Value.bool true) (tag "true"),
-        pmap (fun _ => Value.bool false) (tag "false"),
-        pmap (fun _ => Value.none) (tag "null")]
+        pmap (fun _ => Value.bool true) (kw "true"),
+        pmap (fun _ => Value.bool false) (kw "false"),
+        pmap (fun _ => Value.none) (kw "null")]
 
 def dotProperty : P Ref := pmap Ref.field (tag "." *> ident)
 def indexAccess : P Ref := pmap Ref.idx (tag "[" *> i64Parse <* tag "]")
@@ -568,7 +575,7 @@ def cmpExpr (pe optE : P Expr) : P Expr := do
 def logicalAnd (pe optE : P Expr) : P Expr := do
   let init ← cmpExpr pe optE
   foldMany0
-    (do let r ← alt (do ws1; tag "and"; opt (ws1 *> cmpExpr pe optE))
+    (do let r ← alt (do ws1; kw "and"; opt (ws1 *> cmpExpr pe optE))
                     (do ws0; tag "&&"; ws0; opt (cmpExpr pe optE))
         match r with
         | some x => pure x
@@ -578,7 +585,7 @@ def logicalAnd (pe optE : P Expr) : P Expr := do
 def logicalOr (pe optE : P Expr) : P Expr := do
   let init ← logicalAnd pe optE
   foldMany0
-    (do let r ← alt (do ws1; tag "or"; opt (ws1 *> logicalAnd pe optE))
+    (do let r ← alt (do ws1; kw "or"; opt (ws1 *> logicalAnd pe optE))
                     (do ws0; tag "||"; ws0; opt (logicalAnd pe optE))
         match r with
         | some x => pure x
@@ -613,8 +620,10 @@ def filterAtom : P (Option Search) :=
           if t.isEmpty then none else some (Search.kw { text := String.ofList t, ty := .wildcard }))
         (takeWhile1 isKeywordCh))
 
+/-- `filter_not`: an empty keyword (`*`, `""`: `none`) stands for every line, its negation selects
+nothing: `NOT none = Not (And [])` (before repo commit 0ef6700 `NOT none = none`) -/
 def filterNot (low : P (Option Search)) : P (Option Search) :=
-  pmap (fun o => o.map Search.not) (tag "NOT" *> ws1 *> low)
+  pmap (fun o => some (Search.not (o.getD (Search.and [])))) (tag "NOT" *> ws1 *> low)
 
 /-- `filter_chain`: the operands of a chain of `AND`s / `OR`s; empty keywords drop out -/
 def filterChain (mk : List Search → Search) (operands : List (Option Search)) : Option Search :=
@@ -627,9 +636,14 @@ def filterChain (mk : List Search → Search) (operands : List (Option Search)) 
 def midFilter (low : P (Option Search)) : P (Option Search) :=
   pmap (filterChain Search.and) (sepList1 (ws1 *> tag "AND" <* ws1) low)
 
+/-- the operands of an OR chain: an empty keyword (every line) makes the whole chain "every line"
+(`none`); before repo commit 0ef6700 it was dropped like in an AND chain -/
+def orChain (operands : List (Option Search)) : Option Search :=
+  if operands.any Option.isNone then none else filterChain Search.or operands
+
 /-- `high_filter`: `mid (OR mid)*` -/
 def highFilter (low : P (Option Search)) : P (Option Search) :=
-  pmap (filterChain Search.or) (sepList1 (ws1 *> tag "OR" <* ws1) (midFilter low))
+  pmap orChain (sepList1 (ws1 *> tag "OR" <* ws1) (midFilter low))
 
 def lowFilterN : Nat → P (Option Search)
   | 0 => fun _ _ => .unmod "fuel"
@@ -809,12 +823,12 @@ def sourcedExprList (env : Env) : P (List (String × Expr)) :=
   sepList1 (ws0 *> tag "," <* ws0) (sourcedExpr env)
 
 def sortMode : P SortDir :=
-  altL [pmap (fun _ => SortDir.asc) (tag "ascending"), pmap (fun _ => SortDir.asc) (tag "asc"),
-        pmap (fun _ => SortDir.desc) (tag "descending"), pmap (fun _ => SortDir.desc) (tag "desc"),
-        pmap (fun _ => SortDir.desc) (tag "dsc")]
+  altL [pmap (fun _ => SortDir.asc) (kw "ascending"), pmap (fun _ => SortDir.asc) (kw "asc"),
+        pmap (fun _ => SortDir.desc) (kw "descending"), pmap (fun _ => SortDir.desc) (kw "desc"),
+        pmap (fun _ => SortDir.desc) (kw "dsc")]
 
 def sortOp (env : Env) : P Operator := do
-  tag "sort"
+  kw "sort"
   let cols ← opt (ws1 *> tag "by" *> ws1 *> sourcedExprList env)
   let dir ← opt (ws1 *> sortMode)
   pure (.sort ((cols.getD []).map (·.2)) (dir.getD .asc))
@@ -833,10 +847,10 @@ def parseOp (env : Env) : P Inline := do
   let isRegex ← opt (tag "regex" *> ws1)
   let s ← reqQuotedString
   let fromBefore ← opt (fromClause env)
-  let userFields ← opt (ws1 *> tag "as" *> varList)
+  let userFields ← opt (ws1 *> kw "as" *> varList)
   let fromAfter ← opt (fromClause env)
-  let noDrop ← opt (ws1 *> tag "nodrop")
-  let noConvert ← opt (ws1 *> tag "noconvert")
+  let noDrop ← opt (ws1 *> kw "nodrop")
+  let noConvert ← opt (ws1 *> kw "noconvert")
   let errs ← getErrs
   let res : Inline ← (
     if isRegex.isSome then
@@ -862,9 +876,9 @@ def parseOp (env : Env) : P Inline := do
   pure res
 
 def fieldsMode : P FieldMode :=
-  altL [pmap (fun _ => FieldMode.only) (tag "+"), pmap (fun _ => FieldMode.only) (tag "only"),
-        pmap (fun _ => FieldMode.only) (tag "include"), pmap (fun _ => FieldMode.except) (tag "-"),
-        pmap (fun _ => FieldMode.except) (tag "except"), pmap (fun _ => FieldMode.except) (tag "drop")]
+  altL [pmap (fun _ => FieldMode.only) (tag "+"), pmap (fun _ => FieldMode.only) (kw "only"),
+        pmap (fun _ => FieldMode.only) (kw "include"), pmap (fun _ => FieldMode.except) (tag "-"),
+        pmap (fun _ => FieldMode.except) (kw "except"), pmap (fun _ => FieldMode.except) (kw "drop")]
 
 def fieldsOp : P Inline := do
   tag "fields"; ws1
@@ -958,7 +972,7 @@ def limitOp : P Inline := do
   pure (.limit c)
 
 def splitOp (env : Env) : P Inline := do
-  tag "split"
+  kw "split"
   let e ← opt (singleArg env.optE)
   let o ← opt (ws1 *> tag "on" *> ws1 *> reqQuotedString)
   let a ← opt (ws1 *> tag "as" *> ws1 *> env.pe)
@@ -966,7 +980,7 @@ def splitOp (env : Env) : P Inline := do
   pure (.split (o.getD ",") e (match a with | some x => some x | none => e))
 
 def timesliceOp (env : Env) : P Inline := do
-  tag "timeslice"
+  kw "timeslice"
   let c ← reqSingleArg env.optE
   let d ← opt (ws1 *> duration)
   let o ← opt (ws1 *> tag "as" *> ws1 *> ident)
@@ -974,14 +988,14 @@ def timesliceOp (env : Env) : P Inline := do
   pure (.timeslice c d o)
 
 def totalOp (env : Env) : P Inline := do
-  tag "total"
+  kw "total"
   let c ← reqSingleArg env.optE
   let o ← opt (ws1 *> tag "as" *> ws1 *> reqIdent)
   expectPipe
   pure (.total c (o.getD "_total"))
 
 def whereOp (env : Env) : P Inline := do
-  tag "where"
+  kw "where"
   let c ← opt (ws1 *> env.pe <* ws0)
   expectPipe
   pure (.whereOp c)
@@ -1002,7 +1016,8 @@ def pctValue (ds : List Char) : Option (F64 × String) :=
 /-- `pct` (lang.rs:1358) -/
 def pctFn (env : Env) : P AggFn := do
   pctTag
-  let ds ← digit1
+  -- `p50x` is an identifier, not the 50th percentile followed by `x`
+  let ds ← digit1 <* notP (satisfy isIdentCh)
   let col ← reqSingleArg env.optE
   match pctValue ds with
   | some (p, s) => pure (.pct p s col)
@@ -1021,13 +1036,13 @@ def defaultName : AggFn → String
   | .error => "_err"
 
 def aggFn (env : Env) : P AggFn :=
-  altL [pmap AggFn.countDistinct (tag "count_distinct" *> opt (argList env.optE)),
-        pmap AggFn.count (tag "count" *> opt (singleArg env.optE)),
-        pmap AggFn.min (tag "min" *> reqSingleArg env.optE),
-        pmap AggFn.max (tag "max" *> reqSingleArg env.optE),
+  altL [pmap AggFn.countDistinct (kw "count_distinct" *> opt (argList env.optE)),
+        pmap AggFn.count (kw "count" *> opt (singleArg env.optE)),
+        pmap AggFn.min (kw "min" *> reqSingleArg env.optE),
+        pmap AggFn.max (kw "max" *> reqSingleArg env.optE),
         pctFn env,
-        pmap AggFn.sum (tag "sum" *> reqSingleArg env.optE),
-        pmap AggFn.avg (alt (tag "avg") (tag "average") *> reqSingleArg env.optE)]
+        pmap AggFn.sum (kw "sum" *> reqSingleArg env.optE),
+        pmap AggFn.avg (alt (kw "avg") (kw "average") *> reqSingleArg env.optE)]
 
 def aggOper (env : Env) : P (String × AggFn) := do
   let f ← aggFn env
